@@ -136,6 +136,10 @@ RunAll(s, cs) == IF cs = <<>> THEN s ELSE RunAll(Apply(s, Head(cs)).st, Tail(cs)
 \* C11: the parent may have its own working directory and umask when the view is made (neither may change, then or later)
 SubBases == {BpBase,
              BpBase \o <<[C0 EXCEPT !.op = "chdir", !.p = AbsP(<<"w", "B">>)], [C0 EXCEPT !.op = "setumask", !.perm = 63]>>}
+             \* a non-administrator's view of a directory he may list but not search: the root of the view is an
+             \* ordinary directory, calls on it behave as the parent's calls on that directory
+             \cup {BpBase \o <<[C0 EXCEPT !.op = "chmod", !.p = AbsP(<<"w", "B">>), !.perm = 388],
+                               [C0 EXCEPT !.op = "setuser", !.uid = 1001, !.gid = 1001]>>}
              \cup (IF "VERIF_SUBALL" \in DOMAIN IOEnv THEN {BpBase \o <<[C0 EXCEPT !.op = "chdir", !.p = AbsP(<<"w">>)]>>} ELSE {})
 Init == /\ hist \in (IF Kind = "sub" THEN SubBases ELSE IF Kind = "basepath" THEN {BpBase} ELSE {<<>>})
         /\ st = RunAll(InitSt, hist)
@@ -174,6 +178,9 @@ Call ==
           \* ... and so is the parent removing or moving the view's working directory from under it
           /\ ~(Kind = "sub" /\ c.v = 9 /\ c.op \in {"remove", "removeall", "rename"}
                /\ LET vc == wx.dir \o wx.vcwd IN Len(c.p.parts) <= Len(vc) /\ SubSeq(vc, 1, Len(c.p.parts)) = c.p.parts)
+          \* the enumeration specification (FsEnum) does not describe unreadable or unsearchable directories:
+          \* Glob, WalkDir and the helpers are issued by the administrator only
+          /\ ~(~IsAdmin(st) /\ c.op \in EnumOps)
           \* C11 speaks of relative paths only "once the view's working directory has been set through the view":
           \* when the parent had a working directory of its own, a relative path needs a Chdir through the view first
           /\ ((Kind = "sub" /\ st.cwdn # <<>> /\ ((~c.p.abs /\ c.op # "setumask") \/ (c.op \in {"rename", "link"} /\ ~c.q.abs)))
